@@ -221,13 +221,37 @@ def impl(case):
                 result = 'raised:%s' % type(e).__name__
         EV.reset()
         content = path.read_bytes() if path.exists() else None
+        second = None
+        if result in ('skipped', 'done') and content is not None:
+            # theorem second_call_is_noop: a second call in a row, against a server that publishes the checksum of the file
+            # the first call left and whose data URL is now down, returns early without any data request
+            log2 = []
+
+            def data2_cb(request):
+                log2.append('data')
+                return (503, {}, b'down')
+
+            def sum2_cb(request):
+                log2.append('sum')
+                return (200, {}, hashlib.md5(content).hexdigest() + '  data.bin\n')
+            with responses.RequestsMock(assert_all_requests_are_fired=False) as rsps2:
+                rsps2.add_callback(responses.GET, URL, callback=data2_cb)
+                rsps2.add_callback(responses.GET, URL + '.md5', callback=sum2_cb)
+                try:
+                    ret2 = DS.download_file(URL, path)
+                    res2 = 'skipped' if ret2 is not None else 'done'
+                except Exception as e:  # noqa
+                    res2 = 'raised:%s' % type(e).__name__
+            EV.reset()
+            second = dict(result=res2, n_data=log2.count('data'),
+                          unchanged=path.exists() and path.read_bytes() == content)
     tok = None
     if content is not None:
         tok = [k for k, v in bodies.items() if v == content]
         tok = tok[0] if tok else -1
     n_head = log.count('head')
     log = [x for x in log if x != 'head']
-    return dict(result=result, file=tok, log=log, n_head=n_head, served=served,
+    return dict(result=result, file=tok, log=log, n_head=n_head, served=served, second=second,
                 file_md5=hashlib.md5(content).hexdigest() if content is not None else None,
                 md5={str(k): v for k, v in md5.items()})
 
@@ -368,6 +392,13 @@ def judge(case, impl_res, ans):
     if case['prior'] is not None and case['ss'] and case['ss'][0] == case['prior'] and \
             (n_data != 0 or (ok['result'] != 'skipped' and not other_exc) or ok['file'] != case['prior']):
         return 'SPEC: a valid existing file was downloaded again'
+    sec = ok.get('second')
+    if sec is not None and (sec['n_data'] != 0 or not sec['unchanged'] or
+                            (sec['result'] != 'skipped' and not sec['result'].startswith('raised:'))):
+        # theorem second_call_is_noop (valid_existing_not_refetched in the state the first call left)
+        return ('SPEC: a valid existing file was downloaded again (second call in a row against a server publishing the '
+                'checksum of the file the first call left: result %s, %d data request(s), file %s)' % (
+                    sec['result'], sec['n_data'], 'unchanged' if sec['unchanged'] else 'CHANGED'))
     if ok['result'] != m['result'] or ok['file'] != m['file'] or ok['log'] != m['log']:
         # an exception of another type than HTTPError / RuntimeError: the statement forbids normal returns (with a bad
         # file, after an HTTP error, after a persistent mismatch), re-downloading a valid file and a second retry - all
@@ -412,6 +443,8 @@ def tally(rep, case, impl_res, ans):
     if 'ok' in impl_res:
         rep.count('result:' + impl_res['ok']['result'])
         rep.count('data_requests:%d' % impl_res['ok']['log'].count('data'))
+        if impl_res['ok'].get('second') is not None:
+            rep.count('second_call_in_a_row:%s' % impl_res['ok']['second']['result'])
     rep.count('transfer_encoding:%s%s' % (case.get('encoding', 'identity'), ' over a loopback HTTP server' + (', data URL redirected' if case.get('redirect') else '') if case.get('server') else ' (in-process mock)'))
     rep.count('size_probe(HEAD):%s' % case.get('head', 'none'))
     rep.count('output_path:%s' % case.get('pathkind', 'path'))
